@@ -139,7 +139,7 @@ structure Naming.Inj (H : Naming) (D : Content → Prop) : Prop where
 /-- the revision is the image of some content: its name and hash label are that
 content's, its spec and labels equal that content's -/
 def Faithful (H : Naming) (D : Content → Prop) (r : Rev) : Prop :=
-  ∃ c : Content, D c ∧ r.name = H.name r.comp c ∧ r.hash = H.hash c ∧ r.spec = c.spec ∧ r.labels = c.labels
+  ∃ c : Content, D c ∧ r.name = H.name r.comp c ∧ r.hash = H.hash c ∧ r.spec = toRevisionSpec c.spec ∧ r.labels = c.labels
 
 structure WF (H : Naming) (D : Content → Prop) (s : Store) : Prop where
   comps : ∀ c ∈ s.comps, D c.content
@@ -668,7 +668,7 @@ theorem renum_safe {H : Naming} {D : Content → Prop} (hi : H.Inj D) (cn h : St
 revision of its current content exists, is faithful, is controlled by it and has
 the strictly highest number among the revisions of that Composition -/
 def Good (H : Naming) (c : Comp) (s : Store) : Prop :=
-  ∃ r ∈ s.revs, r.comp = c.name ∧ r.hash = H.hash c.content ∧ r.spec = c.content.spec ∧
+  ∃ r ∈ s.revs, r.comp = c.name ∧ r.hash = H.hash c.content ∧ r.spec = toRevisionSpec c.content.spec ∧
     r.labels = c.content.labels ∧ r.ctrl = some c.uid ∧
     ∀ x ∈ s.revs, x.comp = c.name → x.name ≠ r.name → x.num < r.num
 
